@@ -567,11 +567,29 @@ func returnsErrVar(b *ast.BlockStmt, name string) bool {
 		}
 		return true
 	})
-	if id, ok := r.Results[0].(*ast.Ident); ok && id.Name == name {
-		return true
+	_ = found
+	return nonNilError(r.Results[0], name)
+}
+
+// an expression that evaluates to a non-nil error whenever the variable [name] is non-nil: the variable itself, a new
+// error (fmt.Errorf, errors.New), or errors.Join with at least one such operand (Join drops nil operands only)
+func nonNilError(e ast.Expr, name string) bool {
+	if id, ok := e.(*ast.Ident); ok {
+		return id.Name == name
 	}
-	if call, ok := r.Results[0].(*ast.CallExpr); ok && exprStr(call.Fun) == "fmt.Errorf" && found {
+	call, ok := e.(*ast.CallExpr)
+	if !ok {
+		return false
+	}
+	switch exprStr(call.Fun) {
+	case "fmt.Errorf", "errors.New":
 		return true
+	case "errors.Join":
+		for _, a := range call.Args {
+			if nonNilError(a, name) {
+				return true
+			}
+		}
 	}
 	return false
 }
@@ -594,8 +612,10 @@ func isReturnErr(b *ast.BlockStmt) bool {
 }
 
 // Statement sequences in the sequential style are folded into the if-with-initialiser style the grammar is written in:
-//     x, e := RHS;  if e != nil { return ..e.. };  p.F = x        =>   if x, e := RHS; e != nil { return ..e.. } else { p.F = x }
-//     e := RHS;     if e != nil { return ..e.. }                  =>   if e := RHS; e != nil { return ..e.. }
+//
+//	x, e := RHS;  if e != nil { return ..e.. };  p.F = x        =>   if x, e := RHS; e != nil { return ..e.. } else { p.F = x }
+//	e := RHS;     if e != nil { return ..e.. }                  =>   if e := RHS; e != nil { return ..e.. }
+//
 // (x must not be used anywhere else; e may be reused by later statements of the same shape).
 func normalizeBody(list []ast.Stmt) []ast.Stmt {
 	uses := func(name string, from []ast.Stmt) int {
@@ -1140,6 +1160,7 @@ func parsePkg(root, dir string) *pkgInfo {
 		p.names = append(p.names, n)
 		p.goName = f.Name.Name
 	}
+	normalizePkg(p.files)
 	return p
 }
 
@@ -1300,15 +1321,22 @@ func scanDecls(p *pkgInfo) {
 					fail(fd.Pos(), "constructor outside the grammar")
 				}
 				tn := newLit(ret.Results[0])
-				if name != "New"+tn {
-					fail(fd.Pos(), "constructor %s builds %s", name, tn)
-				}
 				td, ok := types[q(pkg, tn)]
 				if !ok {
 					fail(fd.Pos(), "constructor for unknown type %s", tn)
 				}
-				td.HasCtor = true
+				if name == "New"+tn {
+					td.HasCtor = true
+				}
 			default:
+				// any other function of constructor shape:  func f() *T { return &T{} }
+				if fd.Type.Params.NumFields() == 0 && len(fd.Body.List) == 1 {
+					if ret, ok := fd.Body.List[0].(*ast.ReturnStmt); ok && len(ret.Results) == 1 && newLit(ret.Results[0]) != "" {
+						if _, ok := types[q(pkg, newLit(ret.Results[0]))]; ok {
+							break
+						}
+					}
+				}
 				fail(fd.Pos(), "package-level function %s is outside the grammar", name)
 			}
 		}
